@@ -41,6 +41,8 @@ func main() {
 		return
 	}
 	t0 := time.Now()
+	// before anything else is decoded in this process: results must not depend on what was decoded earlier
+	historyPass(r.Report, r.Cov)
 	ds803 := newDecoders(false)
 	ds90a := newDecoders(true)
 	rep := &reporter{other: ds803, seenFast: map[uint64]bool{}, seen: map[string]bool{}, sigs: map[string]*sigInfo{}, report: r.Report}
@@ -489,6 +491,12 @@ func replay(r *harness.Run) {
 		b, _ := d.Encode()
 		fmt.Printf("description %s bytes %s (%s): %s\n", d.Key(), hex.EncodeToString(b), ds, describe(safeDecode(ds.a, b), ds.pr))
 		agg.flush(report)
+	case "history":
+		historyPass(func(sig, msg string, c any) {
+			if sig == f.Signature {
+				report(sig, msg, c)
+			}
+		}, map[string]any{})
 	case "c":
 		var c KernelCase
 		json.Unmarshal(f.Case, &c)
